@@ -52,6 +52,7 @@ def run(ctx):
                         "compatibility with files written by other versions"]
     ctx.assumptions += ["derive(Encode)/derive(Decode) of minicbor generate symmetric code for the same attribute text"]
 
+    order_rule(ctx, syn)
     r_both = ctx.rule("C11.BOTH", "every type that derives or implements Encode also derives or implements Decode and vice versa")
     r_idx = ctx.rule("C11.IDX", "every field/variant of an encoded type has a distinct index or is in the skip list")
     r_skip = ctx.rule("C11.SKIP", "#[cbor(skip)] only on the frozen list of run-time dirty flags (indices are stored, not rebuilt)")
@@ -355,3 +356,31 @@ def dec_shape(fn):
     if not dnames:
         return {"kind": "nothing"}
     return {"kind": "scalar:" + ",".join(dnames)}
+
+
+# ---------------------------------------------------------------------- ORDER
+def order_rule(ctx, syn):
+    """the hand-written CBOR helpers write a collection in its in-memory order and read it back in the order
+    read: order carries meaning (position-index lists are in insertion order), so a helper that sorts,
+    reverses, filters or de-duplicates on either side changes the model across a round trip"""
+    from synq import find, unparse, strip, walk
+    r = ctx.rule("C11.ORDER", "custom CBOR encoders iterate the collection they are given, custom decoders push in reading order: no sort / reverse / dedup / filter on either side")
+    FORBID = {"sort", "sort_unstable", "sort_by", "sort_by_key", "sort_unstable_by", "sort_unstable_by_key", "reverse", "rev", "dedup", "dedup_by_key", "retain", "filter", "filter_map", "skip", "take", "step_by", "swap", "rotate_left", "rotate_right"}
+    n = 0
+    for f in syn.fns:
+        if f.file != "src/cbor.rs" or f.body is None or not re.match(r"cbor_(encode|decode)_", f.name):
+            continue
+        n += 1
+        ctx.functions_analysed.add(f.qual)
+        bad = sorted(set(c["method"] for c in find(f.body, "mcall") if c["method"] in FORBID))
+        r.hit(f.name, sample={"helper": f.name, "reordering_calls": bad})
+        if bad:
+            ctx.report(r, "%s|%s" % (f.name, bad[0]), "%s calls .%s(): the collection is not written / read in its own order, so the reloaded model differs from the saved one (iteration order of the position index is observable)" % (f.name, bad[0]), f.file, f.line)
+        if f.name.startswith("cbor_encode_"):
+            params = [p_["pat"].get("name") for p_ in f.sig["inputs"]]
+            loops = [lp for lp in find(f.body, "for")]
+            for lp in loops:
+                it = unparse(strip(lp["iter"]))
+                if params and not re.fullmatch(r"%s(\.iter\(\))?" % re.escape(params[0]), it):
+                    ctx.report(r, "%s|iterates:%s" % (f.name, re.sub(r"\W+", "_", it)[:30]), "%s encodes the items of `%s`, not of the collection it was given (`%s`)" % (f.name, it, params[0]), f.file, lp.get("l"))
+    ctx.floor(r, n, 4, "custom CBOR helpers")
